@@ -47,6 +47,8 @@ func runC08(c *Ctx) {
 	memoPlain := map[*ssa.Function]int{}
 
 	// ---- R1 ----
+	entryFn := loopFn
+	loopFn, _ = c.connReadLoop(entryFn) // R1 is about the function that holds the read loop
 	var readCalls []*ssa.Call
 	for _, ci := range flow.CallInstrs(loopFn) {
 		call, ok := ci.(*ssa.Call)
@@ -108,6 +110,33 @@ func runC08(c *Ctx) {
 					dispatch = append(dispatch, u)
 					dispatchCallees = append(dispatchCallees, g)
 				}
+				// the loop helper hands the message to a callback parameter: the dispatch is whatever its
+				// callers pass there — closures that reach a handler by plain calls
+				if cp, isP := u.Call.Value.(*ssa.Parameter); isP && cp.Parent() == loopFn {
+					idx := paramIndex(loopFn, cp)
+					all, any := true, false
+					for _, cs := range c.librarySites(loopFn) {
+						if _, isGo := cs.(*ssa.Go); isGo || idx >= len(cs.Common().Args) {
+							all = false
+							continue
+						}
+						mc, ok := cs.Common().Args[idx].(*ssa.MakeClosure)
+						if !ok {
+							all = false
+							continue
+						}
+						fn := flow.Unwrap(mc.Fn.(*ssa.Function))
+						if invokesHandler(fn) || c.reachesHandler(fn, false, memoPlain) {
+							any = true
+							dispatchCallees = append(dispatchCallees, fn)
+						} else {
+							all = false
+						}
+					}
+					if all && any {
+						dispatch = append(dispatch, u)
+					}
+				}
 			case *ssa.Go:
 				bad, badAt = "the read message is passed to a `go` statement (asynchronous dispatch)", u
 			case *ssa.Send:
@@ -161,6 +190,7 @@ func runC08(c *Ctx) {
 		r.Ok("R1", key, c.pos(d), fmt.Sprintf("message of %s flows by plain call to %s; every cycle through the read passes it", short(flow.Describe(rc), 60), short(flow.Describe(d), 70)))
 	}
 
+	loopFn = entryFn // the remaining rules are about the goroutine's entry function
 	// ---- dispatch closure ----
 	roots := append([]*ssa.Function{}, dispatchCallees...)
 	// handler-typed function values created by the library (closures wrapping application handlers, built-in
